@@ -87,7 +87,8 @@ Print Assumptions C19_nil_refuted.
 
 (* Every input class on which the current code panics on its own account (each witness is valid Go):
    untyped nil argument; untyped nil inside a variadic tail; untyped nil result target; CallArgs omitted for a function
-   with a mandatory parameter; more than 128 arguments to a variadic function (reflect.FuncOf limit). *)
+   with a mandatory parameter; more than 128 arguments to a variadic function (reflect.FuncOf limit); a function with
+   more than 128 results called with CallResultsSlice or with CallResults (the same limit, results thunk). *)
 Theorem C19_current_panic_classes :
   let C := call nat ex_kind ex_assignable ex_elem false MNone in
   let nil_ := mkVal None false 1%Z in
@@ -96,7 +97,11 @@ Theorem C19_current_panic_classes :
   Proofs.Callable.is_panic (C (mkSig [0] (Some 2) []) (fun _ => []) [OArgs [int_ 7%Z; nil_]]) = true /\
   Proofs.Callable.is_panic (C (mkSig [] None [0]) (fun _ => [mkR 0 (SVal 9)]) [OResults [nil_]]) = true /\
   Proofs.Callable.is_panic (C (mkSig [0] None []) (fun _ => []) []) = true /\
-  Proofs.Callable.is_panic (C (mkSig [] (Some 0) []) (fun _ => []) [OArgs (repeat (int_ 5%Z) 129)]) = true.
+  Proofs.Callable.is_panic (C (mkSig [] (Some 0) []) (fun _ => []) [OArgs (repeat (int_ 5%Z) 129)]) = true /\
+  Proofs.Callable.is_panic (C (mkSig [] None (repeat 0 129)) (fun _ => repeat (mkR 0 (SVal 9)) 129)
+                              [OResultsSlice (mkVal (Some 5) false 3%Z)]) = true /\
+  Proofs.Callable.is_panic (C (mkSig [] None (repeat 0 129)) (fun _ => repeat (mkR 0 (SVal 9)) 129)
+                              [OResults (repeat (mkVal (Some 2) false 3%Z) 129)]) = true.
 Proof. exact Proofs.Callable.current_panic_classes. Qed.
 Print Assumptions C19_current_panic_classes.
 
